@@ -1790,6 +1790,8 @@ class Interp:
                 raise SpecError("bad modifies location %s" % loc)
         finally:
             self.spec_depth -= 1
+        if o.tag == "none":
+            return
         if o.tag != "obj":
             raise SpecError("modifies %s: base is not an object" % loc)
         self._havoc(o.ref, fld)
